@@ -81,10 +81,14 @@ func VerifC19_select() {
 		return
 	}
 
-	disable := verifChoose(2) == 1
+	// 0..2 flags with symbolic values: CompressDisableZstd counts wherever it stands in the list
+	// (other flag values are reserved and must not switch it off again)
 	var flags []CompressFlag
-	if disable {
-		flags = []CompressFlag{CompressDisableZstd}
+	disable := false
+	for i, nf := 0, verifChoose(3); i < nf; i++ {
+		f := CompressFlag(verifNondetUint16("flag"))
+		flags = append(flags, f)
+		disable = verifOr(disable, f == CompressDisableZstd)
 	}
 	want := CodecNone
 	for _, o := range options {
